@@ -825,8 +825,9 @@ def check_vmf(vmf, opts: dict) -> list[tuple[str, str, dict]]:
             after['entities'] = best[2]
     if (not opts.get('minimal') and before['cordons']['enabled'] and not before['cordons']['list']
             and not after['cordons']['enabled']):
-        out.append(('cordons-enabled-without-cordons', 'cordon_enabled=True on a map without cordons is exported as "active" "0"',
-                    {}))
+        # Normalisation, not a violation: VMF.export deliberately writes "active" "0" when the map has no cordon at all
+        # (the else-branch in VMF.export), exactly as it resets active_cam to -1 when there is no camera. "Cordoning is
+        # on" has no content without a cordon, the text is a fixed point, and nothing of the map is lost.
         after['cordons']['enabled'] = True
     ignore_ids = not opts.get('preserve_ids')
     for path, a, b in diff(before, after):
